@@ -168,6 +168,18 @@ def run_shard(ctx):
                     cells["image"] = "a.png"
                 form.survey.append(Row("q", "note", f"mn{i % 5}", cells))
             ctx.ctr("unknown_media_type_forms")
+        if i % 16 == 13:
+            # the legacy per-group 'flat' column: the group has no node of its own, its label/media entry hangs off the parent's path
+            langs = form.meta.get("langs") or []
+            cells = {"flat": "yes"}
+            shape = rng.choice(["media-only", "label-only", "label+media"])
+            if shape != "label-only":
+                cells["image" if not langs or rng.random() < 0.5 else f"image::{rng.choice(langs)}"] = "flatgrp.png"
+            if shape != "media-only":
+                cells["label" if not langs else f"label::{langs[0]}"] = "flat group"
+            holder = rng.choice([form.survey] + [r.children for r, _ in form.walk() if r.kind == "group"])
+            holder.append(Row("group", "begin group", f"fg{i % 5}", cells, [Row("q", "text", f"fgq{i % 5}", {"label": "in flat"})]))
+            ctx.ctr("flat_column_forms")
         if i % 16 == 5:
             # osm question with (possibly translated) tags from the osm sheet
             langs = form.meta.get("langs") or []
